@@ -93,7 +93,7 @@ CONTENTS = ["AAA\n", "", "  AAA\n", "AAA  \n", "line1\nline2\nline3\n", "BBB\n"]
 NCONT = 3 if rt.TIER == "quick" else 5
 OLDS = [None] + CONTENTS[:NCONT]
 RELOAD = ["yes", "no", "force"]
-PRIOSETS = [(100, 200, 300), (300, 200, 100), (200, 300, 100), (100, 300, 200)]
+PRIOSETS = [(0, 70, 300), (300, 70, 0), (70, 300, 0), (100, 300, 200)]
 
 
 class _StubDriver:
@@ -111,9 +111,10 @@ class _Storage:
 
 
 class _Dev:
-    def __init__(self):
+    def __init__(self, plain=False):
         from annet.annlib.netdev.views.hardware import HardwareView
-        self.hw = HardwareView("PC", "Cumulus Linux 5.4.0")
+        # plain: a PC whose reload commands get no etckeeper suffix (an empty reload command stays empty)
+        self.hw = HardwareView("PC", "" if plain else "Cumulus Linux 5.4.0")
         self.hostname = "pc1"
         self.fqdn = "pc1.example"
         self.id = 1
@@ -127,8 +128,9 @@ class _Args:
         self.acl_safe = safe
 
 
-def _mk_gen(idx, path, prio, content, safe):
+def _mk_gen(idx, path, prio, content, safe, reload_text=None):
     from annet.generators import Entire
+    reload_text = ("systemctl reload g%d" % idx) if reload_text is None else reload_text
 
     class G(Entire):
         def path(self, device):
@@ -138,14 +140,14 @@ def _mk_gen(idx, path, prio, content, safe):
             yield content.rstrip("\n") if content else ""
 
         def reload(self, device):
-            return "systemctl reload g%d" % idx
+            return reload_text
 
         def is_safe(self, device):
             return safe
     G.__name__ = "G%d" % idx
-    g = G(_Storage())
-    g.prio = prio
-    return g
+    # the priority is a class attribute, as in real generators (Entire.__init__ only supplies the default)
+    G.prio = prio
+    return G(_Storage())
 
 
 def check_flow(cs):
@@ -154,12 +156,15 @@ def check_flow(cs):
     from annet.generators import run_file_generators
     from annet.types import OldNewResult
     from annet.diff import pc_diff
-    dev = _Dev()
+    plain = bool(cs.get("plain"))
+    dev = _Dev(plain)
     paths = ["/etc/a" if (cs["path_sel"] >> i) & 1 == 0 else "/etc/b" for i in range(3)]
     prios = PRIOSETS[cs["prioset"]]
     safes = [bool((cs["safe_sel"] >> i) & 1) for i in range(3)]
     conts = [CONTENTS[c] for c in cs["contents"]]
-    gens = [_mk_gen(i, paths[i], prios[i], conts[i], safes[i]) for i in range(3)]
+    # on the plain PC generator 2 has no reload command at all
+    reloads = [None, None, "" if plain else None]
+    gens = [_mk_gen(i, paths[i], prios[i], conts[i], safes[i], reloads[i]) for i in range(3)]
     order = PERMS[cs["perm"]]
     saved = annet.deploy.get_deployer
     annet.deploy.get_deployer = lambda: _StubDriver()
@@ -211,7 +216,8 @@ def check_flow(cs):
         return False, dict(detail, cmds=sorted(got_cmds), want=sorted(want_files) if enable else []), "reload-attachment-differs", True
     if got and enable:
         for p in want_files:
-            if ("systemctl reload g%d" % want_new[p][1]).encode() not in got["cmds"][p]:
+            want_cmd = ("systemctl reload g%d" % want_new[p][1]) if reloads[want_new[p][1]] is None else reloads[want_new[p][1]]
+            if want_cmd.encode() not in got["cmds"][p] or (want_cmd == "" and got["cmds"][p].strip()):
                 return False, dict(detail, cmds={k: v.decode() for k, v in got["cmds"].items()}), "reload-from-wrong-generator", True
     diff_paths = set(d.label.split(os.sep, 1)[1] if not d.label.startswith("/") else d.label for d in diffs)
     diff_paths = set("/" + x.split("/", 1)[1] if not x.startswith("/") else x for x in diff_paths)
@@ -225,7 +231,7 @@ PATHSEL = [0, 1, 2, 6] if rt.TIER == "quick" else list(range(8))
 SAFEMODES = [(False, 7), (True, 7), (True, 5), (True, 2)] if rt.TIER == "quick" else \
     [(False, 7)] + [(True, m) for m in range(8)]
 C3 = NCONT
-RAD = [len(PATHSEL), 3 if rt.TIER == "quick" else len(PRIOSETS), 6, 2, 2, C3, len(OLDS), len(OLDS) - 1, 3, len(SAFEMODES)]
+RAD = [len(PATHSEL), 3 if rt.TIER == "quick" else len(PRIOSETS), 6, 2, 2, C3, len(OLDS), len(OLDS) - 1, 3, len(SAFEMODES), 2]
 NFLOW = 1
 for _r in RAD:
     NFLOW *= _r
@@ -236,7 +242,7 @@ def _decode_flow(c):
     d = digits(c, RAD)
     safe, sel = SAFEMODES[d[9]]
     return {"path_sel": PATHSEL[d[0]], "prioset": d[1], "perm": d[2], "contents": d[3:6], "olds": d[6:8], "reload": d[8],
-            "safe": safe, "safe_sel": sel}
+            "safe": safe, "safe_sel": sel, "plain": d[10]}
 
 
 def h_flow(case: int) -> bool:
